@@ -27,4 +27,5 @@ def main (args : List String) : IO UInt32 := do
   | ["model", "exec"] => modelLoop stdin stdout ({} : Exec.St) Exec.stepLine; return 0
   | ["judge", "exec"] => judgeLoop stdin stdout ({} : Exec.J) Exec.judgeLine; return 0
   | ["model", "db"] => modelLoop stdin stdout ({} : Db.St) Db.stepLine; return 0
+  | ["judge", "db"] => judgeLoop stdin stdout ({} : Db.J) Db.judgeLine; return 0
   | _ => IO.eprintln "usage: mkdbdrv model|judge <proto>"; return 2
